@@ -219,6 +219,7 @@ func (r *Report) writeReplayFile(vi *violation, extra string) string {
 
 func (r *Report) writeEvidence(wall float64, nViol int) {
 	var fns []string
+	var assumptions0 []string
 	unspec := map[string]bool{}
 	ext := map[string]bool{}
 	used := map[string]bool{}
@@ -274,6 +275,13 @@ func (r *Report) writeEvidence(wall float64, nViol int) {
 			nVac++
 		}
 	}
+	for _, n := range r.v.cs.order {
+		c := r.v.cs.Funcs[n]
+		if c.Trusted && ext[n] {
+			delete(ext, n)
+			assumptions0 = append(assumptions0, "TRUSTED contract on a function of the repository (not verified): "+n)
+		}
+	}
 	var assumedLemmas []string
 	for _, ln := range sortedKeys(r.v.cs.Lemmas) {
 		l := r.v.cs.Lemmas[ln]
@@ -291,7 +299,7 @@ func (r *Report) writeEvidence(wall float64, nViol int) {
 	for _, k := range assumedLemmas {
 		tb = append(tb, "assumed lemma: "+k)
 	}
-	assumptions := append([]string{}, r.pc.Assumptions...)
+	assumptions := append(append([]string{}, r.pc.Assumptions...), assumptions0...)
 	for _, k := range sortedKeys(unspec) {
 		assumptions = append(assumptions, "unspecified callee/construct (result unconstrained, reachable heap havocked): "+k)
 	}
